@@ -739,6 +739,72 @@ fn own_family<const C: usize>(cx: &mut Ctx) -> u64 {
                     cx.check(C02 | C03, obj_live() == 2 * f && own_contents(&m) == want, || format!("after the rejected insert {} elements are alive, expected {}", obj_live(), 2 * f));
                 });
             }
+            // the Set wrappers (SetDrain, SetIntoIter, Set::clone / retain / take / replace) on the same elements
+            own!("Set: clone, drop either copy", C15 | C02, 0, |m| {
+                let s: Set<Ob, C> = std::mem::replace(&mut m, Map::new()).into_keys().collect();
+                let before = CLONES.with(|c| c.get());
+                let c = s.clone();
+                let made = CLONES.with(|c| c.get()) - before;
+                cx.check(C15, made == f as u64 && c.len() == f && c == s, || format!("Set::clone() of {f} elements made {made} element clones and holds {}", c.len()));
+                cx.check(C15 | C02, obj_live() == 2 * f, || format!("after Set::clone() {} elements are alive, expected {}", obj_live(), 2 * f));
+                drop(s);
+                cx.check(C15 | C02, obj_live() == f && c.iter().all(|k| obj_check(k.id, k.cookie, "iteration of the clone")), || "dropping the original set touched the clone's elements".to_string());
+            });
+            for take in [0usize, 1, f / 2, f] {
+                if take > f {
+                    continue;
+                }
+                for forget in [false, true] {
+                    own!(format!("Set: drain, take {take}, {}", if forget { "forget" } else { "drop" }), C10 | C02, if forget { f - take } else { 0 }, |m| {
+                        let mut s: Set<Ob, C> = std::mem::replace(&mut m, Map::new()).into_keys().collect();
+                        let mut got = Vec::new();
+                        {
+                            let mut d = s.drain();
+                            for _ in 0..take {
+                                got.push(d.next().expect("drain item"));
+                            }
+                            cx.check(C10, d.len() == f - take, || format!("Set::drain().len() is {} after {take} of {f} items", d.len()));
+                            if forget {
+                                std::mem::forget(d);
+                            }
+                        }
+                        cx.check(C10, s.is_empty() && s.iter().next().is_none(), || "the set is not empty after drain()".to_string());
+                        for k in 0..C as u16 {
+                            s.insert(Ob::new(k));
+                        }
+                        cx.check(C10, s.len() == C, || "the drained set cannot be refilled to capacity".to_string());
+                        cx.check(C10 | C02, got.iter().all(|k| obj_check(k.id, k.cookie, "use of a drained element")), || "an element yielded by Set::drain is not live".to_string());
+                    });
+                }
+                own!(format!("Set: into_iter, take {take}, drop"), C10 | C02, 0, |m| {
+                    let s: Set<Ob, C> = std::mem::replace(&mut m, Map::new()).into_keys().collect();
+                    let mut it = s.into_iter();
+                    let got: Vec<Ob> = it.by_ref().take(take).collect();
+                    cx.check(C10, it.len() == f - take && got.len() == take, || format!("Set::into_iter().len() is {} after {take} of {f} items", it.len()));
+                    drop(it);
+                    cx.check(C10 | C02, got.iter().all(|k| obj_check(k.id, k.cookie, "use of a yielded element")) && obj_live() == take, || {
+                        format!("after dropping Set::into_iter {} elements are alive, {take} are held", obj_live())
+                    });
+                });
+            }
+            own!("Set: retain(even), take / replace at first, middle and last, clear", C02, 0, |m| {
+                let mut s: Set<Ob, C> = std::mem::replace(&mut m, Map::new()).into_keys().collect();
+                for k in [0usize, f / 2, f.saturating_sub(1)] {
+                    if k >= f {
+                        continue;
+                    }
+                    let old = s.replace(Ob::new(k as u16));
+                    cx.check(C02, old.as_ref().is_some_and(|o| obj_check(o.id, o.cookie, "use of the replaced element")), || "Set::replace handed back a dead element".to_string());
+                }
+                cx.check(C02, obj_live() == f, || format!("after three replacements {} elements are alive, {f} are stored", obj_live()));
+                let t = s.take(&Ob::new((f / 2) as u16));
+                cx.check(C02, t.as_ref().is_some_and(|o| obj_check(o.id, o.cookie, "use of the taken element")) || f == 0, || "Set::take handed back a dead element".to_string());
+                drop(t);
+                s.retain(|k| k.x % 2 == 0);
+                cx.check(C02, obj_live() == s.len() && s.iter().all(|k| obj_check(k.id, k.cookie, "iteration after retain")), || format!("after retain {} elements are alive but {} are stored", obj_live(), s.len()));
+                s.clear();
+                cx.check(C02, obj_live() == 0 && s.is_empty(), || format!("after Set::clear() {} elements are still alive", obj_live()));
+            });
             own!("from_iter of clones of its entries, twice over", C02 | C16, 0, |m| {
                 let items: Vec<(Ob, Ob)> = m.iter().chain(m.iter()).map(|(k, v)| (k.clone(), v.clone())).collect();
                 let c: Map<Ob, Ob, C> = items.into_iter().collect();
